@@ -2,6 +2,7 @@ package main
 
 import (
 	"fmt"
+	"strings"
 
 	"gopkg.in/typ.v4/maps"
 	"gopkg.in/typ.v4/sets"
@@ -97,6 +98,23 @@ func obsT[K comparable](u *spell.U[K], s sets.Set[K], m mask) (string, string) {
 			return name, fmt.Sprintf("%s yields logical values %v, members %v", name, got.list(), m.list())
 		}
 	}
+	// String: "{" + the members, each rendered by fmt.Sprint on the member itself, separated by one
+	// space, in any order + "}"
+	str := s.String()
+	wantLen := 2
+	for i, v := range s.Slice() {
+		r := fmt.Sprint(v)
+		if !strings.Contains(str, r) {
+			return "String", fmt.Sprintf("String() = %q does not contain member %q", str, r)
+		}
+		wantLen += len(r)
+		if i > 0 {
+			wantLen++
+		}
+	}
+	if len(str) != wantLen || !strings.HasPrefix(str, "{") || !strings.HasSuffix(str, "}") {
+		return "String", fmt.Sprintf("String() = %q: want the %d members rendered by fmt.Sprint, space-separated, in braces (%d bytes)", str, m.n(), wantLen)
+	}
 	return "", ""
 }
 
@@ -170,6 +188,9 @@ func allTypedSets(r *ev.Run) int {
 	n += typedSets(r, spell.Complex)
 	n += typedSets(r, spell.Pointers)
 	n += typedSets(r, spell.Int8)
+	n += typedSets(r, spell.Stringers)
+	n += typedSets(r, spell.Errors)
+	n += typedSets(r, spell.Chans)
 	n += typedSets(r, spell.AnyAlike)
 	n += typedSets(r, spell.StringAlike)
 	n += typedSets(r, spell.FloatAlike)
